@@ -5,8 +5,7 @@ import Echse.Lemmas.Ical13
 namespace Echse.Ical
 
 theorem chopR_line (p : Parser) (e : Nat) (he : eolR (rest p) = some e) (hlt : e < (rest p).length) :
-    chopR p = if (takeLine p e).stash.length ≠ 0 then procRes (doProc (takeLine p e))
-              else (takeLine p e, none) := by
+    chopR p = procStep (takeLine p e) := by
   unfold rest at he hlt
   unfold chopR
   rw [he]
@@ -31,7 +30,8 @@ theorem rest_takeLine (p : Parser) (e : Nat) : rest (takeLine p e) = (rest p).dr
   unfold rest
   rw [takeLine_buf, takeLine_bix, List.drop_drop]
 
-/-- a complete line in the buffer: it is processed, the automaton's pending line is flushed -/
+/-- a complete line in the buffer: it is processed (or passed over, if it does not fit), the automaton's
+pending line is flushed -/
 theorem line_spec (p : Parser) (A : Abs) (h : Pre p A) (hp : A.sc.pend = false) (e : Nat)
     (he : eolR (rest p) = some e) (hlt : e < (rest p).length) :
     ∃ q acc' A', book (chopR p) A.ins = some (q, acc') ∧ Pre q A' ∧ rest q ≠ [] ∧ acc' = A'.ins ∧
@@ -45,67 +45,26 @@ theorem line_spec (p : Parser) (A : Abs) (h : Pre p A) (hp : A.sc.pend = false) 
   | cons d r' =>
     have hfd : isFold d = false := hs.2 d r' hd
     rw [hd] at hsplit
-    have hseglen : ((rest p).take e).length = e := by simp; omega
     have hnb : ∀ c ∈ (rest p).take e, c ≠ BSL := fun c hc => h.nobsl c (List.mem_of_mem_take hc)
     have hrun := seg_runA _ ((rest p).take e) A true (Nat.le_refl _) hs.1 hnb hp
     have hsc := seg_runSc _ ((rest p).take e) A.sc true (Nat.le_refl _) hs.1 hp
-    have hgood2 : Good (runSc A.sc ((rest p).take e)) (d :: r') := by
-      apply good_append; rw [hsplit]; exact h.good
-    have hraw : A.sc.raw + e < 1000 := by
-      have := good_head _ _ hgood2
-      unfold okAt at this
-      simp at this
-      rw [hsc.2.1, hseglen] at this; exact this
-    have hlen : p.stash.length + e < stashSize := by
-      have := h.inv.2.1; rw [← h.rel.stash] at this
-      unfold stashSize; omega
-    have hq := takeLine_eq p e hlen
     have hu : (takeLine p e).eolp = false := by
       rw [takeLine_eolp]; exact rel_unmarked p A h.rel hp
-    have hmk : (takeLine p e).eolp = true ↔ ({} : Sc).pend = true := by rw [hu]
     have hrq : rest (takeLine p e) = d :: r' := by rw [rest_takeLine, hd]
     have hpend2 : (runA A ((rest p).take e)).sc.pend = true := by rw [runA_sc]; exact hsc.1
-    have hstash2 : (takeLine p e).stash = (runA A ((rest p).take e)).cur := by
-      rw [hq, hrun]; show p.stash ++ _ = A.cur ++ _; rw [h.rel.stash]
-    have hcomp2 : (takeLine p e).comp = (runA A ((rest p).take e)).comp := by
-      rw [hq, hrun]; exact h.rel.comp
-    have hlog2 : (takeLine p e).log = (runA A ((rest p).take e)).log := by
-      rw [hq, hrun]; exact h.rel.log
     have hins2 : (runA A ((rest p).take e)).ins = A.ins := by rw [hrun]
     have hrunall : runA A (rest p) = runA (flushA (runA A ((rest p).take e))) (d :: r') := by
       have : runA A (rest p) = runA A ((rest p).take e ++ d :: r') := by rw [hsplit]
       rw [this, runA_append]; exact runA_flush _ d r' hpend2 hfd
-    have hgood3 : Good (flushA (runA A ((rest p).take e))).sc (d :: r') := by
-      rw [flushA_sc]
-      exact good_restart _ d r' hsc.1 hfd hgood2
     have hnb3 : ∀ c ∈ d :: r', c ≠ BSL := fun c hc => h.nobsl c (by rw [← hsplit]; simp [hc])
+    have tl := takeLine_spec p A h.rel e
+    obtain ⟨q', hbook, hrel, hbuf, hbix⟩ := procStep_spec (takeLine p e) (runA A ((rest p).take e))
+      (by rw [hrun]; exact tl.1) (by rw [hrun]; exact tl.2)
+      (by rw [hrun, takeLine_comp]; exact h.rel.comp) (by rw [hrun, takeLine_log]; exact h.rel.log) hu
+    have hrest : rest q' = d :: r' := by
+      unfold rest; rw [hbuf, hbix]; exact hrq
     rw [chopR_line p e he hlt]
-    by_cases hne : (takeLine p e).stash.length ≠ 0
-    · rw [if_pos hne, book_proc]
-      have hcur : (runA A ((rest p).take e)).cur ≠ [] := by
-        rw [← hstash2]; intro hx; rw [hx] at hne; exact hne rfl
-      have hb := bookProc_spec (takeLine p e) _ hstash2 hcomp2 hlog2 hcur hu
-      rw [hins2] at hb
-      have hrest : rest (bookProc (takeLine p e) A.ins).1 = d :: r' := by
-        unfold rest; rw [hb.2.2.1, hb.2.2.2]; exact hrq
-      refine ⟨(bookProc (takeLine p e) A.ins).1, (bookProc (takeLine p e) A.ins).2, _, rfl,
-        ⟨hb.1, flushA_inv _, ?_, ?_⟩, ?_, hb.2.1, ?_⟩
-      · rw [hrest]; exact hgood3
-      · rw [hrest]; exact hnb3
-      · rw [hrest]; simp
-      · rw [hrest]; exact hrunall
-    · rw [if_neg hne]
-      have hcur : (runA A ((rest p).take e)).cur = [] := by
-        rw [← hstash2]; exact List.eq_nil_of_length_eq_zero (by omega)
-      have hfl := flushA_of_nil _ hcur
-      refine ⟨takeLine p e, A.ins, flushA (runA A ((rest p).take e)), rfl, ⟨?_, flushA_inv _, ?_, ?_⟩,
-        ?_, ?_, ?_⟩
-      · rw [hfl]
-        exact ⟨hstash2, hcomp2, hlog2, hmk⟩
-      · rw [hrq]; exact hgood3
-      · rw [hrq]; exact hnb3
-      · rw [hrq]; simp
-      · rw [hfl]; exact hins2.symm
-      · rw [hrq]; exact hrunall
+    refine ⟨q', _, flushA (runA A ((rest p).take e)), by rw [← hins2]; exact hbook,
+      ⟨hrel, flushA_inv _, by rw [hrest]; exact hnb3⟩, by rw [hrest]; simp, rfl, by rw [hrest]; exact hrunall⟩
 
 end Echse.Ical
